@@ -1,4 +1,8 @@
 pub mod c01;
+pub mod c03;
+pub mod c04;
+pub mod c06;
+pub mod c10;
 pub mod c05;
 pub mod c11;
 pub mod c12;
@@ -9,7 +13,11 @@ use crate::engine::DynProperty;
 pub fn by_id(id: &str) -> Option<Box<dyn DynProperty>> {
     Some(match id {
         "C01" => Box::new(c01::C01::new()),
+        "C03" => Box::new(c03::C03::new()),
+        "C04" => Box::new(c04::C04::new()),
         "C05" => Box::new(c05::C05::new()),
+        "C06" => Box::new(c06::C06::new()),
+        "C10" => Box::new(c10::C10::new()),
         "C11" => Box::new(c11::C11::new()),
         "C12" => Box::new(c12::C12::new()),
         "C20" => Box::new(c20::C20::new()),
@@ -17,4 +25,4 @@ pub fn by_id(id: &str) -> Option<Box<dyn DynProperty>> {
     })
 }
 
-pub const IDS: &[&str] = &["C01", "C05", "C11", "C12", "C20"];
+pub const IDS: &[&str] = &["C01", "C03", "C04", "C05", "C06", "C10", "C11", "C12", "C20"];
